@@ -1,14 +1,21 @@
 """C15 program ASTs (superset of gen/dl.py's rules), Rust text renderer and Coq (Check/CheckModel.v) renderer.
 
-program = dict(attrs=[pattr], items=[item], sources={name: [item]})
+program = dict(attrs=[pattr], items=[item], sources={name: [item]}, sig=None | [oattr])
   pattr  = 'measure_rule_times' | 'generate_run_timeout' | 'inter_rule_parallelism' | 'ds' | 'unknown'
-  item   = ('rel', name, [type names], is_lattice, [rattr])        rattr = 'ds' | 'other' | 'known' (a Rust attribute rustc accepts)
-         | ('rule', nattrs, rule)                                   rule = dict(heads=[head], body=[bitem])
-         | ('macro', nattrs, name, [param names], [bitem])          variables of the body are parameter names
-         | ('include', nattrs, source name)                         sources[name] = items of the ascent_source! body
+  sig    = absent / None: no struct signature; a list: `struct C15Sig;` with these outer attributes in front of it
+  item   = ('rel', name, [type names], is_lattice, [rattr])        rattr = 'ds' | 'other' | 'known' (= 'allow') | 'doc' | 'cfg'
+         | ('rule', attrs, rule)                                    rule = dict(heads=[head], body=[bitem])
+         | ('macro', attrs, name, [param names], [bitem])           variables of the body are parameter names
+         | ('include', attrs, source name)                          sources[name] = items of the ascent_source! body
+  attrs  = a number n (n made-up attributes) | [oattr]              oattr = 'doc' | 'allow' | 'cfg' | 'ds' | 'other'
   head   = (rel, [term]) | ('hcall', macro, [var])
   bitem  = the items of gen/dl.py  ('clause' | 'cond' | 'gen' | 'agg' | 'neg')  | ('call', macro, [var])
   term   = dl terms ('v', x) ('c', n) ('f', fn, [x]) ('w',)  |  ('p', x)   (pattern argument ?x, body clauses only)
+
+Binders may carry the SHAPE of their pattern as one extra trailing element (absent = the plain identifier):
+  ('let', x, fn, [y], shape)  ('iflet', x, pfn, [y], shape) [the pattern is Some(shape)]  ('gen', x, gn, [y], shape)
+  ('agg', out, an, bound, rel, args, shape)  ('p', x, shape)
+  shape = ('hole',)  the variable | ('at', shape')  x @ shape' | ('wild',) | ('paren', shape) | ('ref', shape) | ('tuple', [shape])
 """
 import re
 
@@ -25,28 +32,165 @@ PATTR_COQ = {
     "measure_rule_times": "PMeasureRuleTimes", "generate_run_timeout": "PGenerateRunTimeout",
     "inter_rule_parallelism": "PInterRuleParallelism", "ds": "PDs", "unknown": "PUnknown",
 }
-RATTR_TEXT = {"ds": "#[ds(ascent::rel)]", "other": "#[c15_unknown_attr]", "known": "#[allow(dead_code)]"}
+RATTR_TEXT = {"ds": "#[ds(ascent::rel)]", "other": "#[c15_unknown_attr]", "known": "#[allow(dead_code)]",
+              "allow": "#[allow(dead_code)]", "doc": '#[doc = "c15 doc"]', "cfg": "#[cfg(all())]"}
+# outer attributes in front of a rule / macro definition / include_source! / the struct signature (a doc comment is this
+# attribute, token for token)
+OATTR_TEXT = {"doc": '#[doc = "c15 doc"]', "allow": "#[allow(dead_code)]", "cfg": "#[cfg(all())]", "ds": "#[ds(ascent::rel)]",
+              "other": "#[c15_made_up]"}
+OATTR_KINDS = sorted(OATTR_TEXT)
+SIG_NAME = "C15Sig"
+
+
+def item_attrs(it):
+    """the attributes written in front of a rule / macro / include item, as a list of kinds"""
+    a = it[1]
+    return ["legacy"] * a if isinstance(a, int) else list(a)
+
+
+def attrs_text(it, legacy):
+    return "".join((OATTR_TEXT.get(a) or legacy) + " " for a in item_attrs(it))
+
+
+# ------------------------------------------------------------------ pattern shapes
+
+HOLE, WILD = ("hole",), ("wild",)
+
+
+def shape_of(node):
+    """the shape carried by a cond / gen / agg / pattern-argument node, or None (plain identifier)"""
+    k = node[0]
+    n = {"let": 4, "iflet": 4, "gen": 4, "agg": 6, "p": 2}.get(k)
+    if n is not None and len(node) > n:
+        return node[n]
+    return None
+
+
+def pat_text(shape, x):
+    k = shape[0]
+    if k == "hole":
+        return x
+    if k == "at":
+        return "%s @ %s" % (x, pat_text(shape[1], x))
+    if k == "wild":
+        return "_"
+    if k == "paren":
+        return "(%s)" % pat_text(shape[1], x)
+    if k == "ref":
+        return "&%s" % pat_text(shape[1], x)
+    if k == "tuple":
+        return "(%s%s)" % (", ".join(pat_text(q, x) for q in shape[1]), "," if len(shape[1]) == 1 else "")
+    raise ValueError(shape)
+
+
+def pat_expr(shape, e):
+    """an expression the pattern matches irrefutably, the variable receiving the i32 value of e"""
+    k = shape[0]
+    if k in ("hole", "at"):
+        return e
+    if k == "wild":
+        return "0i32"
+    if k == "paren":
+        return pat_expr(shape[1], e)
+    if k == "ref":
+        return "&(%s)" % pat_expr(shape[1], e)
+    if k == "tuple":
+        return "(%s%s)" % (", ".join(pat_expr(q, e) for q in shape[1]), "," if len(shape[1]) == 1 else "")
+    raise ValueError(shape)
+
+
+def shape_hidden(shape, under=False):
+    """the variable sits below a parenthesised sub-pattern"""
+    k = shape[0]
+    if k in ("hole", "at"):
+        return under
+    if k == "wild":
+        return False
+    if k == "paren":
+        return shape_hidden(shape[1], True)
+    if k == "ref":
+        return shape_hidden(shape[1], under)
+    return any(shape_hidden(q, under) for q in shape[1])
+
+
+def shape_derefs(shape):
+    """a & above the variable: the variable is bound to the value, not to a reference"""
+    k = shape[0]
+    if k == "ref":
+        return True
+    if k in ("paren",):
+        return shape_derefs(shape[1])
+    if k == "tuple":
+        return any(shape_derefs(q) for q in shape[1])
+    return False
+
+
+def coq_pat(shape, v):
+    k = shape[0]
+    if k == "hole":
+        return "PVar %s" % v
+    if k == "at":
+        return "PAt %s (%s)" % (v, coq_pat(shape[1], v))
+    if k == "wild":
+        return "PWild"
+    if k == "paren":
+        return "PParen (%s)" % coq_pat(shape[1], v)
+    if k == "ref":
+        return "PRef (%s)" % coq_pat(shape[1], v)
+    if k == "tuple":
+        return "PSeq %s" % clist(coq_pat(q, v) for q in shape[1])
+    raise ValueError(shape)
+
+
+def coq_binds(shape, v, wrap_some=False):
+    """the list of bound variables of a binder as the model sees it: what pattern_get_vars reports (pv = CheckModel.pat_vars
+    with the model's parameter, bound in the tie's prelude)"""
+    if shape is None:
+        return "[%s]" % v
+    pt = coq_pat(shape, v)
+    if wrap_some:
+        pt = "PSeq [%s]" % pt
+    return "(pv (%s))" % pt
 KINDS = ["ascent", "ascent_par", "ascent_run", "ascent_run_par"]
 KIND_COQ = {"ascent": "KAscent", "ascent_par": "KAscentPar", "ascent_run": "KAscentRun", "ascent_run_par": "KAscentRunPar"}
 
 
 # ------------------------------------------------------------------ Rust text
 
+def rust_cond(c, kinds):
+    sh = shape_of(c)
+    if sh is None:
+        return dl.rust_cond(c, kinds)
+    if c[0] == "let":
+        e = dl._subst(dl.FUNS[c[2]][2], [kinds.use(x) for x in c[3]])
+        s = "let %s = %s" % (pat_text(sh, c[1]), pat_expr(sh, e))
+    else:
+        e = dl._subst(dl.PARTIALS[c[2]][2], [kinds.use(x) for x in c[3]])
+        s = "if let Some(%s) = (%s).map(|c15v| %s)" % (pat_text(sh, c[1]), e, pat_expr(sh, "c15v"))
+    kinds.k[c[1]] = "val"      # also when the binder REbinds the variable: in the generated Rust the new binding shadows the old one
+    return s
+
+
 def rust_clause(it, kinds):
     args = []
     for t in it[2]:
         if t[0] == "p":
-            args.append("?" + t[1])
+            sh = shape_of(t)
+            args.append("?" + (t[1] if sh is None else pat_text(sh, t[1])))
         else:
             args.append(dl.rust_term(t, kinds))
             if t[0] == "v":
                 kinds.ref(t[1])
     for t in it[2]:
         if t[0] == "p":
-            kinds.ref(t[1])
+            sh = shape_of(t)
+            if sh is None:
+                kinds.ref(t[1])
+            else:
+                kinds.k[t[1]] = "val" if shape_derefs(sh) else "ref"
     s = "%s(%s)" % (it[1], ", ".join(args))
     for c in it[3]:
-        s += " " + dl.rust_cond(c, kinds)
+        s += " " + rust_cond(c, kinds)
     return s
 
 
@@ -55,7 +199,22 @@ def rust_item(it, kinds):
         return rust_clause(it, kinds)
     if it[0] == "call":
         return "%s!(%s)" % (it[1], ", ".join(it[2]))
-    return dl.rust_item(it, kinds)
+    sh = shape_of(it[1]) if it[0] == "cond" else shape_of(it)
+    if sh is None:
+        return dl.rust_item(it, kinds)
+    if it[0] == "cond":
+        return rust_cond(it[1], kinds)
+    if it[0] == "gen":
+        e = dl._subst(dl.GENS[it[2]][2], [kinds.use(x) for x in it[3]])
+        s = "for %s in (%s).into_iter().map(|c15v| %s)" % (pat_text(sh, it[1]), e, pat_expr(sh, "c15v"))
+        kinds.k[it[1]] = "val"
+        return s
+    if it[0] == "agg":
+        # the result pattern of an aggregate: render with a place holder and put the pattern in its place
+        s = dl.rust_item(("agg", "c15_pat_place_holder") + tuple(it[2:6]), kinds)
+        kinds.k[it[1]] = "val"
+        return s.replace("agg c15_pat_place_holder =", "agg %s =" % pat_text(sh, it[1]), 1)
+    raise ValueError(it)
 
 
 def rust_head(h, kinds):
@@ -87,18 +246,26 @@ def rust_item_line(item):
         _, name, tys, lat, attrs = item
         return "%s%s %s(%s);" % ("".join(RATTR_TEXT[a] + " " for a in attrs), "lattice" if lat else "relation", name, ", ".join(tys))
     if k == "rule":
-        return "#[c15_rule_attr] " * item[1] + rust_rule(item[2])
+        return attrs_text(item, "#[c15_rule_attr]") + rust_rule(item[2])
     if k == "macro":
-        _, nattrs, name, params, body = item
-        return "#[c15_macro_attr] " * nattrs + "macro %s(%s) { %s }" % (name, ", ".join("$%s: ident" % p for p in params), rust_macro_body(params, body))
+        _, _attrs, name, params, body = item
+        return attrs_text(item, "#[c15_macro_attr]") + "macro %s(%s) { %s }" % (name, ", ".join("$%s: ident" % p for p in params), rust_macro_body(params, body))
     if k == "include":
-        return "#[c15_include_attr] " * item[1] + "include_source!(%s);" % item[2]
+        return attrs_text(item, "#[c15_include_attr]") + "include_source!(%s);" % item[2]
     raise ValueError(item)
 
 
+def sig_lines(p, name=SIG_NAME):
+    """the struct signature with the outer attributes written in front of it ([] when the program has none)"""
+    sig = p.get("sig")
+    if sig is None:
+        return []
+    return ["".join(OATTR_TEXT[a] + " " for a in sig) + "pub struct %s;" % name]
+
+
 def rust_lines(p):
-    """one line per attribute / item: the text between the braces of the macro"""
-    return [PATTR_TEXT[a] for a in p["attrs"]] + [rust_item_line(i) for i in p["items"]]
+    """one line per attribute / signature / item: the text between the braces of the macro"""
+    return [PATTR_TEXT[a] for a in p["attrs"]] + sig_lines(p) + [rust_item_line(i) for i in p["items"]]
 
 
 def rust_text(p):
@@ -134,7 +301,7 @@ def rename_term(t, ren):
     if t[0] == "v":
         return ("v", ren.get(t[1], t[1]))
     if t[0] == "p":
-        return ("p", ren.get(t[1], t[1]))
+        return ("p", ren.get(t[1], t[1])) + tuple(t[2:])
     if t[0] == "f":
         return ("f", t[1], [ren.get(x, x) for x in t[2]])
     return t
@@ -145,7 +312,7 @@ def rename_cond(c, ren):
         return ("if", c[1], [ren.get(x, x) for x in c[2]])
     if c[0] == "letc":
         return ("letc", ren.get(c[1], c[1]), c[2])
-    return (c[0], ren.get(c[1], c[1]), c[2], [ren.get(x, x) for x in c[3]])
+    return (c[0], ren.get(c[1], c[1]), c[2], [ren.get(x, x) for x in c[3]]) + tuple(c[4:])
 
 
 def rename_item(it, ren):
@@ -155,13 +322,13 @@ def rename_item(it, ren):
     if k == "cond":
         return ("cond", rename_cond(it[1], ren))
     if k == "gen":
-        return ("gen", ren.get(it[1], it[1]), it[2], [ren.get(x, x) for x in it[3]])
+        return ("gen", ren.get(it[1], it[1]), it[2], [ren.get(x, x) for x in it[3]]) + tuple(it[4:])
     if k == "neg":
         return ("neg", it[1], [rename_term(t, ren) for t in it[2]])
     if k == "call":
         return ("call", it[1], [ren.get(x, x) for x in it[2]])
     if k == "agg":
-        _, out, an, bound, rel, args = it
+        _, out, an, bound, rel, args = it[:6]
         na = []
         for a in args:
             if a[0] == "b":
@@ -170,7 +337,7 @@ def rename_item(it, ren):
                 na.append(("k", rename_term(a[1], ren)))
             else:
                 na.append(a)
-        return ("agg", ren.get(out, out) if out else out, an, [ren.get(x, x) for x in bound], rel, na)
+        return ("agg", ren.get(out, out) if out else out, an, [ren.get(x, x) for x in bound], rel, na) + tuple(it[6:])
     raise ValueError(it)
 
 
@@ -217,7 +384,7 @@ def coq_arg(t, var):
     if t[0] == "w":
         return "AWild"
     if t[0] == "p":
-        return "APat [%s]" % var(t[1])
+        return "APat %s" % coq_binds(shape_of(t), var(t[1]))
     raise ValueError(t)
 
 
@@ -225,9 +392,9 @@ def coq_cond(c, var):
     if c[0] == "if":
         return "CIf"
     if c[0] in ("let", "letc"):
-        return "CLet [%s]" % var(c[1])
+        return "CLet %s" % coq_binds(shape_of(c), var(c[1]))
     if c[0] == "iflet":
-        return "CIfLet [%s]" % var(c[1])
+        return "CIfLet %s" % coq_binds(shape_of(c), var(c[1]), wrap_some=True)
     raise ValueError(c)
 
 
@@ -248,12 +415,12 @@ def coq_sitem(it, N, var):
     if k == "neg":
         return "SNeg %d %d" % (N.rel(it[1]), len(it[2]))
     if k == "agg":
-        _, out, an, bound, rel, args = it
-        return "SAgg %s %s %d %s" % (clist([var(out)] if out else []), clist(var(x) for x in bound), N.rel(rel), clist(coq_aarg(a, var) for a in args))
+        _, out, an, bound, rel, args = it[:6]
+        return "SAgg %s %s %d %s" % (coq_binds(shape_of(it), var(out)) if out else "[]", clist(var(x) for x in bound), N.rel(rel), clist(coq_aarg(a, var) for a in args))
     if k == "cond":
         return "SCond (%s)" % coq_cond(it[1], var)
     if k == "gen":
-        return "SGen [%s]" % var(it[1])
+        return "SGen %s" % coq_binds(shape_of(it), var(it[1]))
     if k == "call":
         return "SCall %d %s" % (N.mac(it[1]), clist(var(x) for x in it[2]))
     raise ValueError(it)
@@ -265,37 +432,51 @@ def coq_hitem(h, N):
     return "HClause %d %d" % (N.rel(h[0]), len(h[1]))
 
 
-def coq_item0(item, N):
+def coq_rattrs(kinds):
+    return clist("RDs" if a == "ds" else "ROther" for a in kinds)
+
+
+def coq_bare0(item, N):
+    """(attributes written in front of the item, the item without them)"""
     k = item[0]
     if k == "rel":
         _, name, tys, lat, attrs = item
-        # 'known' attributes are ROther for the macro (handed to the struct field); only rustc tells them apart
-        return "IRel {| d_name := %d; d_tys := %s; d_lat := %s; d_attrs := %s |}" % (
-            N.rel(name), clist(str(N.ty(t)) for t in tys), "true" if lat else "false",
-            clist("RDs" if a == "ds" else "ROther" for a in attrs))
+        # every attribute but ds is ROther for the macro (handed to the struct field); only rustc tells them apart
+        return coq_rattrs(attrs), "BRel %d %s %s" % (N.rel(name), clist(str(N.ty(t)) for t in tys), "true" if lat else "false")
     if k == "rule":
         r = item[2]
-        return "IRule %d {| s_heads := %s; s_body := %s |}" % (
-            item[1], clist(coq_hitem(h, N) for h in r["heads"]), clist(coq_sitem(it, N, N.ident) for it in r["body"]))
+        return coq_rattrs(item_attrs(item)), "BRule {| s_heads := %s; s_body := %s |}" % (
+            clist(coq_hitem(h, N) for h in r["heads"]), clist(coq_sitem(it, N, N.ident) for it in r["body"]))
     if k == "macro":
-        _, nattrs, name, params, body = item
+        _, _attrs, name, params, body = item
         pidx = {p: i for i, p in enumerate(params)}
         # a variable of the body that is not a parameter cannot be expressed in the model (see CheckModel.v): index out of range
         pv = lambda x: str(pidx.get(x, len(params) + 7))
-        return "IMacro %d {| m_name := %d; m_nparams := %d; m_body := %s |}" % (
-            nattrs, N.mac(name), len(params), clist(coq_sitem(it, N, pv) for it in body))
+        return coq_rattrs(item_attrs(item)), "BMacro {| m_name := %d; m_nparams := %d; m_body := %s |}" % (
+            N.mac(name), len(params), clist(coq_sitem(it, N, pv) for it in body))
     raise ValueError(item)
 
 
-def coq_program(p, N=None):
+def coq_text(p, N=None):
+    """the program as a CheckModel.text: signature and items, each with the attributes written in front of it"""
     N = N or CoqNames()
     items = []
     for it in p["items"]:
         if it[0] == "include":
             src = []
             for s in p["sources"][it[2]]:
-                src.append("I1Include %d" % s[1] if s[0] == "include" else "I1Plain (%s)" % coq_item0(s, N))
-            items.append("IInclude %d %s" % (it[1], clist(src)))
+                if s[0] == "include":
+                    src.append("(%s, B1Include)" % coq_rattrs(item_attrs(s)))
+                else:
+                    a, b = coq_bare0(s, N)
+                    src.append("(%s, B1Plain (%s))" % (a, b))
+            items.append("(%s, BInclude %s)" % (coq_rattrs(item_attrs(it)), clist(src)))
         else:
-            items.append("IPlain (%s)" % coq_item0(it, N))
-    return "{| p_attrs := %s; p_items := %s |}" % (clist(PATTR_COQ[a] for a in p["attrs"]), clist(items)), N
+            a, b = coq_bare0(it, N)
+            items.append("(%s, BPlain (%s))" % (a, b))
+    sig = p.get("sig")
+    return "{| t_attrs := %s; t_sig := %s; t_items := %s |}" % (
+        clist(PATTR_COQ[a] for a in p["attrs"]), "None" if sig is None else "Some %s" % coq_rattrs(sig), clist(items)), N
+
+
+coq_program = coq_text
